@@ -11,7 +11,7 @@ Emit == PrintT(<<"REPLAY", ToJson([def |-> def.id, line |-> line, env |-> env, o
 ActiveCmds == LET t == Cur(st).lvl.tail IN
               IF t.kind = "cmd" THEN [k \in DOMAIN t.cmds |-> [n |-> t.cmds[k].names[1], w |-> CmdWords(t.cmds[k])]] ELSE <<>>
 CEmit == Viable(st) => PrintT(<<"REPLAY", ToJson([def |-> def.id, line |-> line, env |-> env, outside |-> FALSE, acmds |-> ActiveCmds,
-            comps |-> {[p |-> PartialText(p), must |-> MustOffer(st, p), may |-> MayOffer(st, p), pending |-> (st.pending # "")]
+            comps |-> {[p |-> PartialText(p), must |-> MustOffer(st, p), may |-> MayOffer(st, p), pending |-> (st.pending # ""), hint |-> PosHint(st)]
                        : p \in {p \in Partials(def) : ~(p.k = "short" /\ Foreign(st, p.s)) /\ ~(p.k = "long" /\ ForeignLong(st, p.cs))}}])>>)
 \* design configs hide the history: states are identified by their denotation
 DesignView == <<def.id, env, st, Len(line)>>
